@@ -550,9 +550,150 @@ fn config(report: &Report, cli: &Cli, global: &GlobalContext<ArCurve>, n: u8, t:
     });
 }
 
+/// Initial-account credentials, identity recovery requests and account-ownership proofs.
+fn extras(report: &Report, cli: &Cli, global: &GlobalContext<ArCurve>) {
+    use concordium_base::id::{account_holder::generate_id_recovery_request, chain::verify_initial_cdi, id_prover::prove_ownership_of_account, id_verifier::verify_account_ownership, identity_provider::validate_id_recovery_request};
+    let s = setup(cli.seed, 2, global);
+    let s_other = setup(cli.seed + 1, 2, global);
+    let ctx = IpContext::new(&s.ip.public_ip_info, &s.ars, &s.global);
+    let id_use = test_create_id_use_data(&mut rng(cli.seed, 8900));
+    // ---- initial-account credential (issued by the identity provider with a v0 identity) ----
+    for (nkeys, thr) in [(1u8, 1u8), (2, 1), (2, 2), (3, 2)] {
+        let cd = cred_data(cli.seed + 30, nkeys, thr);
+        let initial = InitialAccountData { keys: cd.keys.clone(), threshold: cd.threshold };
+        let w = json!({"initial_credential": {"keys": nkeys, "threshold": thr}});
+        case(report, w.clone(), || {
+            let (pio, _) = generate_pio(&ctx, Threshold::try_from(2u8).unwrap(), &id_use, &initial).ok_or(("request-not-producible".to_string(), json!({})))?;
+            let alist = &attribute_lists()[0].1;
+            let (_, icdi) = verify_credentials(&pio, ctx, alist, EXPIRY, &s.ip.ip_secret_key, &s.ip.ip_cdi_secret_key).map_err(|e| ("valid-identity-request-rejected".to_string(), json!(format!("{e:?}"))))?;
+            report.trace(1);
+            if verify_initial_cdi(&s.ip.public_ip_info, &icdi, EXPIRY).is_err() {
+                return fail("valid-initial-credential-rejected", json!({}));
+            }
+            let reject = |what: &str, ok: bool| -> Result<(), (String, serde_json::Value)> {
+                report.trace(1);
+                if ok {
+                    return fail("altered-initial-credential-verifies", json!({"what": what}));
+                }
+                Ok(())
+            };
+            reject("other expiry", verify_initial_cdi(&s.ip.public_ip_info, &icdi, TransactionTime { seconds: EXPIRY.seconds + 1 }).is_ok())?;
+            reject("other identity provider", verify_initial_cdi(&s_other.ip.public_ip_info, &icdi, EXPIRY).is_ok())?;
+            let mut x = icdi.clone();
+            x.values.reg_id = x.values.reg_id.double_point();
+            reject("registration id doubled", verify_initial_cdi(&s.ip.public_ip_info, &x, EXPIRY).is_ok())?;
+            let mut x = icdi.clone();
+            x.values.ip_identity = IpIdentity(x.values.ip_identity.0 + 1);
+            reject("identity provider id + 1", verify_initial_cdi(&s.ip.public_ip_info, &x, EXPIRY).is_ok())?;
+            let mut x = icdi.clone();
+            x.values.policy.valid_to = ym(2099, 1);
+            reject("policy valid_to", verify_initial_cdi(&s.ip.public_ip_info, &x, EXPIRY).is_ok())?;
+            let mut x = icdi.clone();
+            let k0 = *x.values.cred_account.keys.keys().next().unwrap();
+            x.values.cred_account.keys.insert(k0, VerifyKey::from(KeyPair::generate(&mut rng(cli.seed, 8910)).public()));
+            reject("account key replaced", verify_initial_cdi(&s.ip.public_ip_info, &x, EXPIRY).is_ok())?;
+            // every bit of the serialised initial credential
+            let b = to_bytes(&icdi);
+            for bit in 0..b.len() * 8 {
+                if let Ok(y) = from_bytes::<InitialCredentialDeploymentInfo<ArCurve, AttributeKind>, _>(&mut &flip(&b, bit)[..]) {
+                    report.trace(1);
+                    if to_bytes(&y) != b && verify_initial_cdi(&s.ip.public_ip_info, &y, EXPIRY).is_ok() {
+                        return fail("altered-initial-credential-verifies", json!({"bit": bit}));
+                    }
+                }
+            }
+            Ok(())
+        });
+    }
+    // ---- identity recovery request ------------------------------------------------------------
+    for ts in [0u64, 1, 1_700_000_000, u64::MAX] {
+        case(report, json!({"recovery_request": {"timestamp": ts.to_string()}}), || {
+            let req = generate_id_recovery_request(&s.ip.public_ip_info, &s.global, &id_use.aci.cred_holder_info.id_cred.id_cred_sec, ts).ok_or(("request-not-producible".to_string(), json!({})))?;
+            report.trace(1);
+            if !validate_id_recovery_request(&s.ip.public_ip_info, &s.global, &req) {
+                return fail("valid-recovery-request-rejected", json!({}));
+            }
+            let b = to_bytes(&req);
+            let again: IdRecoveryRequest<ArCurve> = from_bytes(&mut &b[..]).map_err(|e| ("request-does-not-decode".to_string(), json!(format!("{e:#}"))))?;
+            if to_bytes(&again) != b {
+                return fail("request-round-trip-differs", json!({}));
+            }
+            let reject = |what: &str, ok: bool| -> Result<(), (String, serde_json::Value)> {
+                report.trace(1);
+                if ok {
+                    return fail("altered-recovery-request-accepted", json!({"what": what}));
+                }
+                Ok(())
+            };
+            reject("other identity provider", validate_id_recovery_request(&s_other.ip.public_ip_info, &s.global, &req))?;
+            reject("other global context", validate_id_recovery_request(&s.ip.public_ip_info, &GlobalContext::<ArCurve>::generate_size("another".into(), 256), &req))?;
+            let mut x: IdRecoveryRequest<ArCurve> = from_bytes(&mut &b[..]).unwrap();
+            x.timestamp = ts.wrapping_add(1);
+            reject("timestamp + 1", validate_id_recovery_request(&s.ip.public_ip_info, &s.global, &x))?;
+            let mut x: IdRecoveryRequest<ArCurve> = from_bytes(&mut &b[..]).unwrap();
+            x.id_cred_pub = x.id_cred_pub.double_point();
+            reject("idCredPub doubled", validate_id_recovery_request(&s.ip.public_ip_info, &s.global, &x))?;
+            for bit in 0..b.len() * 8 {
+                if let Ok(y) = from_bytes::<IdRecoveryRequest<ArCurve>, _>(&mut &flip(&b, bit)[..]) {
+                    report.trace(1);
+                    if to_bytes(&y) != b && validate_id_recovery_request(&s.ip.public_ip_info, &s.global, &y) {
+                        return fail("altered-recovery-request-accepted", json!({"bit": bit}));
+                    }
+                }
+            }
+            Ok(())
+        });
+    }
+    // ---- account-ownership proofs: the threshold policy over the credential's keys --------------
+    let account = AccountAddress([7u8; 32]);
+    for nkeys in 1..=3u8 {
+        for thr in 1..=nkeys {
+            let cd = cred_data(cli.seed + 40, nkeys, thr);
+            let public = CredentialPublicKeys { keys: cd.keys.iter().map(|(k, kp)| (*k, VerifyKey::from(kp.public()))).collect(), threshold: cd.threshold };
+            // every subset of the keys signs
+            for subset in subsets(nkeys as usize) {
+                let w = json!({"account_ownership": {"keys": nkeys, "threshold": thr, "signing": subset}});
+                case(report, w, || {
+                    let part = CredentialData { keys: cd.keys.iter().enumerate().filter(|(i, _)| subset.contains(i)).map(|(_, (k, kp))| (*k, kp.clone())).collect(), threshold: cd.threshold };
+                    let proof = prove_ownership_of_account(&part, account, b"challenge");
+                    // documented: a signature by every key of the credential ("the same number of proofs and
+                    // keys"), of which there are at least threshold many
+                    let want = subset.len() == nkeys as usize;
+                    report.trace(1);
+                    let got = verify_account_ownership(&public, account, b"challenge", &proof);
+                    if got != want {
+                        return fail(if want { "valid-ownership-proof-rejected" } else { "ownership-proof-without-all-keys-accepted" }, json!({"got": got}));
+                    }
+                    if want {
+                        report.trace(3);
+                        if verify_account_ownership(&public, AccountAddress([8u8; 32]), b"challenge", &proof) {
+                            return fail("ownership-proof-verifies-for-other-account", json!({}));
+                        }
+                        if verify_account_ownership(&public, account, b"challengf", &proof) {
+                            return fail("ownership-proof-verifies-for-other-challenge", json!({}));
+                        }
+                        let other = cred_data(cli.seed + 41, nkeys, thr);
+                        let other_public = CredentialPublicKeys { keys: other.keys.iter().map(|(k, kp)| (*k, VerifyKey::from(kp.public()))).collect(), threshold: other.threshold };
+                        if verify_account_ownership(&other_public, account, b"challenge", &proof) {
+                            return fail("ownership-proof-verifies-for-other-keys", json!({}));
+                        }
+                        // a proof from keys that are not the credential's, under its indices
+                        let foreign = prove_ownership_of_account(&CredentialData { keys: other.keys.clone(), threshold: other.threshold }, account, b"challenge");
+                        if verify_account_ownership(&public, account, b"challenge", &foreign) {
+                            return fail("ownership-proof-by-foreign-keys-accepted", json!({}));
+                        }
+                    }
+                    Ok(())
+                });
+            }
+        }
+    }
+}
+
 pub fn run(cli: &Cli) -> ! {
     let report = Report::new(cli);
     let global = GlobalContext::<ArCurve>::generate_size("mc-crypto-c08".into(), 256);
+    extras(&report, cli, &global);
     let table = BabyStepGiantStep::<ArCurve>::new(global.encryption_in_exponent_generator(), 1 << 16);
     let nmax = if cli.tier == Tier::Quick { 3 } else { 5 };
     let mut cfgs = vec![];
